@@ -3124,6 +3124,9 @@ static Node *funcall(Token **rest, Token *tok, Node *fn) {
   Type *ty = (fn->ty->kind == TY_FUNC) ? fn->ty : fn->ty->base;
   Type *param_ty = ty->params;
 
+  if ((ty->return_ty->kind == TY_STRUCT || ty->return_ty->kind == TY_UNION) && ty->return_ty->size < 0)
+    error_tok(fn->tok, "calling a function with incomplete return type");
+
   Node head = {};
   Node *cur = &head;
 
